@@ -227,6 +227,20 @@ def reindex_database(
             session.repo.add_file(zorg_page)
             session.commit()
 
+    if not cmd.paths:
+        # Files that were deleted (or renamed) since they were last indexed.
+        for zorg_page_name in session.repo.get_file_names():
+            if zorg_page_name not in file_to_hash:
+                num_of_updates += 1
+                session.repo.remove_file_by_name(zorg_page_name)
+                session.commit()
+                c.zprint(
+                    "REMOVING DELETED FILE",
+                    zorg_page_name,
+                    fg_color=Color.BLACK,
+                    bg_color=Color.YELLOW,
+                )
+
     if num_of_updates == 0:
         c.zprint("NO ZORG FILES HAVE BEEN MODIFIED")
 
